@@ -1,20 +1,318 @@
 import WK.Spec.C19
 import WK.Gen.C19
+import WK.Proofs.C19_inv
+/-
+  C19 — Controller state file is replaced atomically.
+
+  `WK.Gen.C19.saveOps` is the ordered list of file-system calls the extractor
+  reads out of `(*Store).Save` on every run; all theorems below are about THAT
+  list, executed on the POSIX-lite model of `WK.Model.C19`.  Dropping
+  `tmp.Sync()`, renaming before syncing, or dropping `syncDir` changes the list
+  and these proofs stop checking; `WK.C19.crashVerdict` (run by the driver on the
+  same list) then prints the crash point and the crash choice that tears the file,
+  and `c19_exhibit_sound` says such a print-out is a real counterexample.
+
+  Parameters, never axioms: `decode`/`encode`/checksum `C` of the state codec.
+-/
 namespace WK.C19
 open WK.Gen.C19
 
-theorem take_cases {α} (l : List α) (k : Nat) : ∃ m, m ≤ l.length ∧ l.take k = l.take m := by
-  refine ⟨min k l.length, Nat.min_le_right _ _, ?_⟩
-  by_cases h : k ≤ l.length
-  · rw [Nat.min_eq_left h]
-  · rw [Nat.min_eq_right (by omega), List.take_of_length_le (by omega), List.take_of_length_le (by omega)]
+theorem crashInode_synced (c : Nat) (b : Bytes) : crashInode c ⟨b, b.length⟩ = ⟨b, b.length⟩ := by
+  simp [crashInode, Nat.max_eq_left (Nat.min_le_right c b.length)]
 
+theorem take_cases {α} (l : List α) (k : Nat) : ∃ m, m ≤ l.length ∧ l.take k = l.take m ∧ (l.length ≤ k → m = l.length) := by
+  refine ⟨min k l.length, Nat.min_le_right _ _, ?_, ?_⟩
+  · by_cases h : k ≤ l.length
+    · rw [Nat.min_eq_left h]
+    · rw [Nat.min_eq_right (by omega), List.take_of_length_le (by omega), List.take_of_length_le (by omega)]
+  · intro h; exact Nat.min_eq_right h
+
+theorem stable_elim {fs : FS} {old : Option Bytes} (h : Stable fs old) (P : Prop)
+    (h1 : ∀ (i : Ino) (b : Bytes), fs.durable pathName = some i → i ≠ fs.next → fs.inodes i = ⟨b, b.length⟩ → old = some b → P)
+    (h2 : fs.durable pathName = none → old = none → P) : P := by
+  obtain ⟨_, hlt, hold⟩ := h
+  cases old with
+  | none => exact h2 hold rfl
+  | some b =>
+    obtain ⟨i, hi, hib⟩ := hold
+    exact h1 i b hi (Nat.ne_of_lt (hlt _ _ hi)) hib rfl
+
+/-- Core symbolic execution: after the first `m` calls of the generated list and
+    a crash with ANY choice `(j, cut)`, the on-disk directory maps the state file
+    to a fully synced inode holding the old or the new bytes; after all calls,
+    the new bytes. -/
+theorem crashed_path (m : Nat) (hm : m ≤ saveOps.length) (fs : FS) (old : Option Bytes) (t : Name) (new : Bytes)
+    (j : Nat) (cut : Ino → Nat) (hst : Stable fs old) (ht : t ≠ pathName) :
+    (PathHolds (crash ⟨j, cut⟩ (run t new (saveOps.take m) (fs, {})).1) old ∨
+     PathHolds (crash ⟨j, cut⟩ (run t new (saveOps.take m) (fs, {})).1) (some new)) ∧
+    (m = saveOps.length → PathHolds (crash ⟨j, cut⟩ (run t new (saveOps.take m) (fs, {})).1) (some new)) := by
+  have ht' : pathName ≠ t := fun h => ht h.symm
+  have hp := hst.1
+  simp only [saveOps, List.length_cons, List.length_nil] at hm
+  apply stable_elim hst
+  · intro i b hi hne hib ho
+    subst ho
+    rcases m with _|_|_|_|_|_|_|_|_|_|_|_|m <;> try omega
+    all_goals (rcases j with _|_|_|j <;>
+      simp [PathHolds, saveOps, run, exec, hp, resolve, setInode, crash, FS.view, applyDirOp, ht', hi, hne, hib, crashInode_synced])
+  · intro hi ho
+    subst ho
+    rcases m with _|_|_|_|_|_|_|_|_|_|_|_|m <;> try omega
+    all_goals (rcases j with _|_|_|j <;>
+      simp [PathHolds, saveOps, run, exec, hp, resolve, setInode, crash, FS.view, applyDirOp, ht', hi, crashInode_synced])
+
+theorem read_of_pathHolds {fs : FS} {v : Option Bytes} (hp : fs.pending = []) (h : PathHolds fs v) :
+    fs.read pathName = v := by
+  cases v with
+  | none => simp [FS.read, FS.view, hp, PathHolds] at *; simp [h]
+  | some b =>
+    obtain ⟨i, hi, hib⟩ := h
+    simp [FS.read, FS.view, hp, hi, hib]
+
+theorem stable_inoInv {fs : FS} {old : Option Bytes} (h : Stable fs old) : InoInv fs :=
+  ⟨h.2.1, by simp [h.1]⟩
+
+/-- `Stable` is re-established by the crash, for the old or the new contents. -/
+theorem c19_stable_step (fs : FS) (old : Option Bytes) (t : Name) (new : Bytes) (k : Nat) (c : CrashChoice)
+    (hst : Stable fs old) (ht : t ≠ pathName) :
+    (Stable (crashedAt saveOps t new k c fs) old ∨ Stable (crashedAt saveOps t new k c fs) (some new)) ∧
+    (saveOps.length ≤ k → Stable (crashedAt saveOps t new k c fs) (some new)) := by
+  obtain ⟨m, hm, hk, hfull⟩ := take_cases saveOps k
+  obtain ⟨j, cut⟩ := c
+  have hb : DirBelow (crashedAt saveOps t new k ⟨j, cut⟩ fs).durable (crashedAt saveOps t new k ⟨j, cut⟩ fs).next :=
+    crash_below _ _ (run_inoInv t new _ (fs, {}) (stable_inoInv hst))
+  have hcore := crashed_path m hm fs old t new j cut hst ht
+  unfold crashedAt at *
+  rw [hk] at hb ⊢
+  refine ⟨?_, ?_⟩
+  · rcases hcore.1 with h | h
+    · exact Or.inl ⟨rfl, hb, h⟩
+    · exact Or.inr ⟨rfl, hb, h⟩
+  · intro hlen
+    exact ⟨rfl, hb, hcore.2 (hfull hlen)⟩
+
+/-- **Atomicity** of the generated call list: for every quiescent file system,
+    every temp name, every new contents, every crash point `k` and every crash
+    choice, the state file reads as the complete old or the complete new bytes. -/
 theorem c19_atomic : AtomicSave saveOps := by
-  intro fs old t new k c hst ht hfresh
-  obtain ⟨hp, hlt, hold⟩ := hst
-  obtain ⟨m, hm, hk⟩ := take_cases saveOps k
-  unfold crashedAt
+  intro fs old t new k c hst ht
+  rcases (c19_stable_step fs old t new k c hst ht).1 with h | h
+  · exact Or.inl (read_of_pathHolds h.1 h.2.2)
+  · exact Or.inr (read_of_pathHolds h.1 h.2.2)
+
+/-- **Durability**: after the last call no crash choice loses the new bytes. -/
+theorem c19_durable : DurableSave saveOps := by
+  intro fs old t new k c hst ht hk
+  have h := (c19_stable_step fs old t new k c hst ht).2 hk
+  exact read_of_pathHolds h.1 h.2.2
+
+/-- One interrupted or completed save attempt. -/
+structure Attempt where
+  t : Name
+  new : Bytes
+  k : Nat
+  c : CrashChoice
+
+def attempt (fs : FS) (a : Attempt) : FS := crashedAt saveOps a.t a.new a.k a.c fs
+
+/-- **Histories**: after any sequence of save attempts, each cut short by a crash
+    at an arbitrary point with an arbitrary choice (or completed), the file system is
+    again quiescent and the state file holds the initial contents or the bytes of
+    one of the attempts. -/
+theorem c19_history (as : List Attempt) : ∀ (fs : FS) (old : Option Bytes), Stable fs old →
+    (∀ a ∈ as, a.t ≠ pathName) →
+    ∃ v, Stable (as.foldl attempt fs) v ∧ (v = old ∨ ∃ a ∈ as, v = some a.new) := by
+  induction as with
+  | nil => intro fs old h _; exact ⟨old, h, Or.inl rfl⟩
+  | cons a rest ih =>
+    intro fs old h hn
+    have hstep := (c19_stable_step fs old a.t a.new a.k a.c h (hn a (by simp))).1
+    have hrest : ∀ x ∈ rest, x.t ≠ pathName := fun x hx => hn x (by simp [hx])
+    rcases hstep with h1 | h1
+    · obtain ⟨v, hv, hor⟩ := ih _ old h1 hrest
+      refine ⟨v, hv, ?_⟩
+      rcases hor with e | ⟨x, hx, e⟩
+      · exact Or.inl e
+      · exact Or.inr ⟨x, by simp [hx], e⟩
+    · obtain ⟨v, hv, hor⟩ := ih _ (some a.new) h1 hrest
+      refine ⟨v, hv, ?_⟩
+      rcases hor with e | ⟨x, hx, e⟩
+      · exact Or.inr ⟨a, by simp, e⟩
+      · exact Or.inr ⟨x, by simp [hx], e⟩
+
+/-- ... and if the last attempt ran to completion the file holds exactly its bytes. -/
+theorem c19_history_last (as : List Attempt) (a : Attempt) (fs : FS) (old : Option Bytes) (h : Stable fs old)
+    (hn : ∀ x ∈ as ++ [a], x.t ≠ pathName) (hk : saveOps.length ≤ a.k) :
+    ((as ++ [a]).foldl attempt fs).read pathName = some a.new := by
+  obtain ⟨v, hv, _⟩ := c19_history as fs old h (fun x hx => hn x (by simp [hx]))
+  rw [List.foldl_append]
+  simp only [List.foldl_cons, List.foldl_nil]
+  have := (c19_stable_step _ v a.t a.new a.k a.c hv (hn a (by simp))).2 hk
+  exact read_of_pathHolds this.1 this.2.2
+
+/-- **No torn read while Save runs / process kill**: without power loss (a
+    process kill at any point, or a concurrent reader) the state file reads as the
+    complete old or the complete new bytes after every prefix of the call list. -/
+theorem c19_live_atomic (fs : FS) (old : Option Bytes) (t : Name) (new : Bytes) (k : Nat)
+    (hst : Stable fs old) (ht : t ≠ pathName) :
+    (run t new (saveOps.take k) (fs, {})).1.read pathName = old ∨
+    (run t new (saveOps.take k) (fs, {})).1.read pathName = some new := by
+  obtain ⟨m, hm, hk, _⟩ := take_cases saveOps k
   rw [hk]
-  simp only [saveOps, List.length] at hm
-  sorry
+  have ht' : pathName ≠ t := fun h => ht h.symm
+  have hp := hst.1
+  simp only [saveOps, List.length_cons, List.length_nil] at hm
+  apply stable_elim hst
+  · intro i b hi hne hib ho
+    subst ho
+    rcases m with _|_|_|_|_|_|_|_|_|_|_|_|m <;> try omega
+    all_goals simp [saveOps, run, exec, hp, resolve, setInode, FS.read, FS.view, applyDirOp, ht', hi, hne, hib]
+  · intro hi ho
+    subst ho
+    rcases m with _|_|_|_|_|_|_|_|_|_|_|_|m <;> try omega
+    all_goals simp [saveOps, run, exec, hp, resolve, setInode, FS.read, FS.view, applyDirOp, ht', hi]
+
+/-- **Failed saves**: if call number `k` fails, `Save` runs its deferred cleanup
+    and returns; a crash at that moment (any choice) still leaves old or new. -/
+theorem c19_abort_atomic (fs : FS) (old : Option Bytes) (t : Name) (new : Bytes) (k : Nat) (c : CrashChoice)
+    (hst : Stable fs old) (ht : t ≠ pathName) :
+    (crash c (abortAt t new deferredRemove saveOps k fs).1).read pathName = old ∨
+    (crash c (abortAt t new deferredRemove saveOps k fs).1).read pathName = some new := by
+  obtain ⟨m, hm, hk, _⟩ := take_cases saveOps k
+  obtain ⟨j, cut⟩ := c
+  unfold abortAt
+  rw [hk]
+  have ht' : pathName ≠ t := fun h => ht h.symm
+  have hp := hst.1
+  simp only [saveOps, List.length_cons, List.length_nil] at hm
+  apply stable_elim hst
+  · intro i b hi hne hib ho
+    subst ho
+    rcases m with _|_|_|_|_|_|_|_|_|_|_|_|m <;> try omega
+    all_goals (rcases j with _|_|_|_|j <;>
+      simp [saveOps, deferredRemove, cleanupOps, run, exec, hp, resolve, setInode, crash, FS.read, FS.view, applyDirOp, ht', hi, hne, hib, crashInode_synced])
+  · intro hi ho
+    subst ho
+    rcases m with _|_|_|_|_|_|_|_|_|_|_|_|m <;> try omega
+    all_goals (rcases j with _|_|_|_|j <;>
+      simp [saveOps, deferredRemove, cleanupOps, run, exec, hp, resolve, setInode, crash, FS.read, FS.view, applyDirOp, ht', hi, crashInode_synced])
+
+/-! ### Load = decode ∘ read, with the codec abstract -/
+
+/-- `(*Store).Load` as the extractor found it: it reads `s.path` and returns what
+    `state.Decode` makes of exactly those bytes (`decodesPath` is the regenerated
+    fact `Gen.loadDecodesPath`; if the shape is lost nothing is claimed: `none`). -/
+def loadModel {σ : Type} (decodesPath : Bool) (decode : Bytes → Option σ) (fs : FS) : Option (Option σ) :=
+  if decodesPath then some ((fs.read pathName).bind decode) else none
+
+/-- **The property**: with a codec that round-trips (`decode (encode s) = some s`),
+    `Load` after a crash at any point of `Save new` with any crash choice returns the
+    previous state or the new state, and the new state once `Save` has returned. -/
+theorem c19_load_old_or_new {σ : Type} (decode : Bytes → Option σ) (encode : σ → Bytes)
+    (hrt : ∀ s, decode (encode s) = some s)
+    (fs : FS) (old new : σ) (t : Name) (k : Nat) (c : CrashChoice)
+    (hst : Stable fs (some (encode old))) (ht : t ≠ pathName) :
+    (loadModel loadDecodesPath decode (crashedAt saveOps t (encode new) k c fs) = some (some old) ∨
+     loadModel loadDecodesPath decode (crashedAt saveOps t (encode new) k c fs) = some (some new)) ∧
+    (saveOps.length ≤ k →
+     loadModel loadDecodesPath decode (crashedAt saveOps t (encode new) k c fs) = some (some new)) := by
+  refine ⟨?_, ?_⟩
+  · rcases c19_atomic fs _ t (encode new) k c hst ht with h | h
+    · left; simp [loadModel, loadDecodesPath, h, hrt]
+    · right; simp [loadModel, loadDecodesPath, h, hrt]
+  · intro hk
+    have h := c19_durable fs _ t (encode new) k c hst ht hk
+    simp [loadModel, loadDecodesPath, h, hrt]
+
+/-- `state.Decode` as a function of an abstract parser and checksum: parse the
+    document into (payload, stored checksum), recompute `C` over the canonical
+    payload, accept iff equal. -/
+def decodeModel {σ κ : Type} [DecidableEq κ] (parse : Bytes → Option (σ × κ)) (C : σ → κ) (b : Bytes) : Option σ :=
+  match parse b with
+  | none => none
+  | some (s, c) => if c = C s then some s else none
+
+/-- **Corruption is rejected or is a checksum collision**: if the damaged file
+    `b'` is accepted and yields a state different from the one that was saved with
+    checksum `c`, then either the stored checksum field was changed too, or `C`
+    collides on the two states. -/
+theorem c19_corrupt_rejected {σ κ : Type} [DecidableEq κ] (parse : Bytes → Option (σ × κ)) (C : σ → κ)
+    (s : σ) (b' : Bytes) (s' : σ) (c' : κ)
+    (hp' : parse b' = some (s', c')) (hacc : decodeModel parse C b' = some s') (hne : s' ≠ s) :
+    c' ≠ C s ∨ (C s' = C s ∧ s' ≠ s) := by
+  simp only [decodeModel, hp'] at hacc
+  by_cases hc : c' = C s
+  · right
+    refine ⟨?_, hne⟩
+    by_cases h : c' = C s'
+    · rw [← h, hc]
+    · simp [h] at hacc
+  · exact Or.inl hc
+
+/-! ### the driver's exhibit is a real counterexample -/
+
+theorem stable_fs0 (old : Option Bytes) : Stable (fs0 old) old := by
+  cases old with
+  | none => exact ⟨rfl, by intro n i h; simp [fs0] at h, rfl⟩
+  | some b =>
+    refine ⟨rfl, ?_, ⟨0, by simp [fs0], by simp [fs0]⟩⟩
+    intro n i h
+    simp only [fs0] at h
+    split at h
+    · cases h; exact Nat.zero_lt_one
+    · cases h
+
+/-- If the driver's crash enumeration reports a torn state for a call list, that
+    call list is not an atomic save (so the print-out `crash point / journal
+    prefix / data cut` is a genuine failing crash choice, for ANY call list). -/
+theorem c19_exhibit_sound (ops : List Op) (old : Option Bytes) (new : Bytes) (w : Nat × Nat × Nat)
+    (h : findTorn ops old new = some w) : ¬ AtomicSave ops := by
+  intro hat
+  obtain ⟨k, _, hk⟩ := List.exists_of_findSome?_eq_some h
+  obtain ⟨⟨j, n⟩, _, hjn⟩ := List.exists_of_findSome?_eq_some hk
+  have := hat (fs0 old) old 1 new k (uniformChoice j n) (stable_fs0 old) (by decide)
+  simp only [crashedAt] at this
+  simp only at hjn
+  split at hjn
+  · cases hjn
+  · rename_i hno; exact hno this
+
+theorem c19_exhibit_sound_durable (ops : List Op) (old : Option Bytes) (new : Bytes) (w : Nat × Nat)
+    (h : findLost ops old new = some w) : ¬ DurableSave ops := by
+  intro hd
+  unfold findLost at h
+  obtain ⟨⟨j, n⟩, _, hjn⟩ := List.exists_of_findSome?_eq_some h
+  have := hd (fs0 old) old 1 new ops.length (uniformChoice j n) (stable_fs0 old) (by decide) (Nat.le_refl _)
+  simp only [crashedAt, List.take_length] at this
+  simp only at hjn
+  split at hjn
+  · cases hjn
+  · rename_i hno; exact hno this
+
+/-! ### non-vacuity -/
+
+/-- the hypotheses of the theorems are satisfiable: a concrete quiescent file system -/
+example : Stable (fs0 (some [1, 2, 3])) (some [1, 2, 3]) := stable_fs0 _
+example : Stable (fs0 none) none := stable_fs0 _
+
+/-- the crash adversary is not toothless: the same list WITHOUT `tmp.Sync()` is torn
+    (crash after the rename reached the disk, none of the data did) ... -/
+example : findTorn [.createTemp, .write true, .close, .rename .tmp .path, .setKeep, .fsyncDir] (some [1]) [2, 3]
+    = some (4, 2, 0) := by decide
+/-- ... renaming before syncing is torn ... -/
+example : findTorn [.createTemp, .write true, .rename .tmp .path, .fsync, .close, .setKeep, .fsyncDir] (some [1]) [2, 3]
+    = some (3, 2, 0) := by decide
+/-- ... and without `syncDir` a completed save can be lost. -/
+example : findLost [.createTemp, .write true, .fsync, .close, .rename .tmp .path, .setKeep] (some [1]) [2, 3]
+    = some (0, 0) := by decide
+/-- the generated list itself passes the executable judge on a concrete instance -/
+example : crashVerdict saveOps (some [1]) [2, 3] = "ok" := by decide
+/-- a save attempt that is torn in the middle of a history still leaves a loadable file -/
+example : ((([⟨1, [7], 3, ⟨1, fun _ => 0⟩⟩, ⟨2, [8, 9], 100, ⟨0, fun _ => 0⟩⟩] : List Attempt).foldl attempt (fs0 (some [5]))).read pathName)
+    = some [8, 9] := by decide
+/-- the checksum lemma's hypotheses are satisfiable: a one-byte document whose
+    checksum is the byte itself; a damaged document with a stale checksum is rejected -/
+example : decodeModel (fun b => match b with | [x, c] => some (x, c) | _ => none) (fun (x : UInt8) => x) [3, 3] = some 3 := by decide
+example : decodeModel (fun b => match b with | [x, c] => some (x, c) | _ => none) (fun (x : UInt8) => x) [4, 3] = none := by decide
+
 end WK.C19
